@@ -45,13 +45,13 @@ func (m *mapResolver) IncludePaths() []string { return nil }
 
 // loopback origin for the generated services (started on first use, lives as long as the worker)
 var (
-	originOnce sync.Once
-	originHost string
-	originPort string
+	evalOriginOnce sync.Once
+	evalOriginHost string
+	evalOriginPort string
 )
 
 func origin() (string, string) {
-	originOnce.Do(func() {
+	evalOriginOnce.Do(func() {
 		srv := httptest.NewServer(http.HandlerFunc(func(w http.ResponseWriter, r *http.Request) {
 			w.Header().Set("Cache-Control", "max-age=60")
 			w.Header().Set("X-Origin", "1")
@@ -59,9 +59,9 @@ func origin() (string, string) {
 			w.Write([]byte("origin")) // nolint:errcheck
 		}))
 		u, _ := url.Parse(srv.URL)
-		originHost, originPort = u.Hostname(), u.Port()
+		evalOriginHost, evalOriginPort = u.Hostname(), u.Port()
 	})
-	return originHost, originPort
+	return evalOriginHost, evalOriginPort
 }
 
 func simRun(args string) string {
